@@ -7,7 +7,7 @@
      and of the environment they run in:
      dulwich.objects.Commit (a record of byte fields) and Commit._serialize /
      format_time_entry / format_timezone / _format_message (the canonical serialisation),
-     Python str.splitlines, bytes.decode / str.encode for UTF-8 and Latin-1.
+     Python str.removesuffix/str.split, bytes.decode / str.encode for UTF-8 and Latin-1.
 
    Representation of Python [str]: a str is represented by the byte string
    s.encode("utf-8", "surrogateescape").  On that representation
@@ -252,36 +252,14 @@ Definition fix_person (t : bytes) : res bytes :=
     | _, _ => Err "ValueError"          (* rindex: subsection not found *)
     end.
 
-(* str.splitlines() on the representation: \n \r \r\n \v \f \x1c \x1d \x1e \x85     *)
-Definition is_brk1 (b : N) : bool :=
-  (b =? 10) || (b =? 11) || (b =? 12) || (b =? 28) || (b =? 29) || (b =? 30).
-Definition brk_len (s : bytes) : nat :=
-  match s with
-  | [] => O
-  | b :: r =>
-      if b =? 13 then match r with c :: _ => if c =? 10 then 2%nat else 1%nat | [] => 1%nat end
-      else if is_brk1 b then 1%nat
-      else if b =? 194 then match r with c :: _ => if c =? 133 then 2%nat else O | [] => O end
-      else if b =? 226 then
-        match r with
-        | c :: d :: _ => if (c =? 128) && ((d =? 168) || (d =? 169)) then 3%nat else O
-        | _ => O
-        end
-      else O
+(* props["git-extra"].removesuffix("\n").split("\n") on the representation
+   (since e6f8bec; before that the code used str.splitlines()) *)
+Definition remove_suffix_nl (t : text) : text :=
+  match rev t with
+  | b :: r => if b =? NL then rev r else t
+  | [] => t
   end.
-Fixpoint splitlines_aux (skip : nat) (cur : bytes) (s : bytes) : list bytes :=
-  match s with
-  | [] => match cur with [] => [] | _ => [rev cur] end
-  | b :: r =>
-      match skip with
-      | S k => splitlines_aux k cur r
-      | O => match brk_len s with
-             | O => splitlines_aux O (b :: cur) r
-             | S k => rev cur :: splitlines_aux k [] r
-             end
-      end
-  end.
-Definition splitlines (s : text) : list text := splitlines_aux O [] s.
+Definition extra_lines (t : text) : list text := split1 NL (remove_suffix_nl t).
 
 (* ---------- the Bazaar revision ---------- *)
 Record props := {
@@ -467,14 +445,17 @@ Fixpoint export_extra (lines : list text) : res (list (bytes * bytes)) :=
 Definition before_comma (t : text) : text :=
   match break_at COMMA t with Some (a, _) => a | None => t end.
 
-(* encoding = props["git-explicit-encoding"], else props.get("git-implicit-encoding", "utf-8") *)
+Definition implicit_codec (env : bytes -> codec) (implicit : option text) : codec :=
+  match implicit with
+  | Some e => lookup env e
+  | None => CUtf8
+  end.
+(* encoding = props.get("git-explicit-encoding"); if it is None or "false":
+   props.get("git-implicit-encoding", "utf-8")          (since 5f2eb02) *)
 Definition export_codec (env : bytes -> codec) (explicit implicit : option text) : codec :=
   match explicit with
-  | Some e => lookup env e
-  | None => match implicit with
-            | Some e => lookup env e
-            | None => CUtf8
-            end
+  | Some e => if bytes_eqb e (bs "false") then implicit_codec env implicit else lookup env e
+  | None => implicit_codec env implicit
   end.
 
 (* the "several authors" rule applied to rev.get_apparent_authors()[0] *)
@@ -497,9 +478,12 @@ Definition export_commit (env : bytes -> codec) (r : revision) (tree_sha : bytes
         end) (fun first_author =>
   bind (bind (encode cd (cut_author first_author)) fix_person) (fun author =>
   bind (if p_missing_msg p
-        then Err "AttributeError"       (* commit.message read before it was ever set *)
-        else encode cd (r_message r)) (fun message =>
-  bind (export_extra (match p_extra p with Some t => splitlines t | None => [] end)) (fun extra =>
+        then match r_message r with       (* since bd50aba: commit.message = None *)
+             | [] => Ok None
+             | _ => Err "AssertionError"
+             end
+        else bind (encode cd (r_message r)) (fun m => Ok (Some m))) (fun message =>
+  bind (export_extra (match p_extra p with Some t => extra_lines t | None => [] end)) (fun extra =>
   Ok {| c_tree := tree_sha;
         c_parents := parents;
         c_author := author;
@@ -514,7 +498,7 @@ Definition export_commit (env : bytes -> codec) (r : revision) (tree_sha : bytes
         c_mergetag := p_mergetags p;
         c_extra := extra;
         c_gpgsig := p_gpgsig p;
-        c_message := Some message |}))))))).
+        c_message := message |}))))))).
 
 (* ---------- observations for the correspondence run ---------- *)
 Definition ores {A} (f : A -> obs) (r : res A) : obs :=
@@ -549,7 +533,7 @@ Definition env1 (name : bytes) (cd : codec) : bytes -> codec :=
   fun n => if bytes_eqb n name then cd else CUnknown.
 
 Definition run_fix_person (t : bytes) : obs := ores OB (fix_person t).
-Definition run_splitlines (t : bytes) : obs := olist OB (splitlines t).
+Definition run_extra_lines (t : bytes) : obs := olist OB (extra_lines t).
 
 (* ---------- the executable guards of the theorems ---------- *)
 Definition wf_commit (c : commit) : bool :=
@@ -567,15 +551,12 @@ Definition ident_ok (t : bytes) : bool :=
   match fix_person t with Ok t' => bytes_eqb t' t | _ => false end
   && negb (memb COMMA t && Nat.ltb 1 (count GT t)).
 
-Fixpoint no_brk (l : bytes) : bool :=
-  match l with [] => true | _ :: r => Nat.eqb (brk_len l) 0 && no_brk r end.
-
 Definition extra_ok (kv : bytes * bytes) : bool :=
   let '(k, v) := kv in
   (bytes_eqb k HG_RENAME_SOURCE
    || (bytes_eqb k HG_EXTRA
        && match break_at 58 v with Some (hgk, _) => hg_known hgk | None => false end))
-  && no_brk v.
+  && negb (memb NL v).
 
 Definition texts_valid (c : commit) : bool :=
   valid_utf8 (c_committer c) && valid_utf8 (c_author c)
@@ -585,18 +566,18 @@ Definition encoding_ok (env : bytes -> codec) (c : commit) : bool :=
   match c_encoding c with
   | None => true
   | Some e =>
-      is_ascii e && negb (bytes_eqb e (bs "false"))
-      && match lookup env e with
-         | CUtf8 => texts_valid c
-         | CLatin1 => true
-         | _ => false
-         end
+      is_ascii e
+      && (bytes_eqb e (bs "false")
+          || match lookup env e with
+             | CUtf8 => texts_valid c
+             | CLatin1 => true
+             | _ => false
+             end)
   end.
 
 Definition rt_guard (env : bytes -> codec) (c : commit) : bool :=
   wf_commit c && encoding_ok env c
   && ident_ok (c_committer c) && ident_ok (c_author c)
-  && match c_message c with Some _ => true | None => false end
   && forallb extra_ok (c_extra c).
 
 (* falsy gpgsig (b"") is not serialised and comes back as None *)
